@@ -142,10 +142,10 @@ const char* CommandLineArguments::help() const
       "  -st <grp>.<name>  - only run tests whose group and name exactly match <grp> and <name>\n"
       "  -xg <group>       - exclude tests whose group contains <group>\n"
       "  -xn <name>        - exclude tests whose name contains <name>\n"
-      "  -xt <grp>.<name>  - exclude tests whose group and name contain <grp> and <name>\n"
+      "  -xt <grp>.<name>  - exclude tests whose group contains <grp> or whose name contains <name>\n"
       "  -xsg <group>      - exclude tests whose group exactly matches <group>\n"
       "  -xsn <name>       - exclude tests whose name exactly matches <name>\n"
-      "  -xst <grp>.<name> - exclude tests whose group and name exactly match <grp> and <name>\n"
+      "  -xst <grp>.<name> - exclude tests whose group exactly matches <grp> or whose name exactly matches <name>\n"
       "  \"[IGNORE_]TEST(<group>, <name>)\"\n"
       "                    - only run tests whose group and name exactly match <group> and <name>\n"
       "                      (this can be used to copy-paste output from the -v option on the command line)\n"
